@@ -10,7 +10,11 @@ Inductive fcall :=
 | FAdd (id : string) (msg : fmsg) (o : fwo)
 | FDelete (id : string) (o : fwo)
 | FSubV (ro : fro)
-| FSubC (ro : fro).
+| FSubC (ro : fro)
+(* Collection.Pull without backpressure, its consumer taking nothing until every call has returned
+   and draining then; what it receives depends on mergeCollectionExcess (C09) and is judged by the
+   fold oracle only *)
+| FSubCL (ro : fro).
 
 (* what a call returned: message (nil = None) and gRPC code (0 = no error) *)
 Record fout := mkFO { fo_msg : option fmsg; fo_code : Z }.
@@ -38,7 +42,7 @@ Definition to_call (c : fcall) : lcall :=
   | FAdd id msg o => @CUpdate fmsg fwriter (list fld) id msg (as_add (to_wopts None o))
   | FDelete id o => @CDelete fmsg fwriter (list fld) id (to_wopts None o)
   | FSubV ro => @CSubV fmsg fwriter (list fld) (to_ropts ro)
-  | FSubC ro => @CSubC fmsg fwriter (list fld) (to_ropts ro)
+  | FSubC ro | FSubCL ro => @CSubC fmsg fwriter (list fld) (to_ropts ro)
   end.
 
 Definition init_v (vinit : option fmsg) : vstate fmsg := mkV vinit (fclock 0) 1.
@@ -77,6 +81,9 @@ Definition cstream_of (u : csub fmsg (list fld)) : list (cchange fmsg) :=
 
 Definition final_list (c : cstate fmsg) : list (string * fmsg) := c_list fr_filter c None None.
 
+Definition is_lossy (t : nat) (prog : list fcall) : bool :=
+  match nth_error prog t with Some (FSubCL _) => true | _ => false end.
+
 (* the model version compared with the implementation: false = the repaired create path *)
 Definition model_v0 := false.
 
@@ -94,7 +101,7 @@ Definition agrees (c : ccase) : bool :=
                         | Some obs => list_match vc_matches (vstream_of u) obs
                         | None => false end) (st_vsubs s) &&
       forallb (fun u => match assoc_nat (cs_tid u) cstreams with
-                        | Some obs => list_match cc_matches (cstream_of u) obs
+                        | Some obs => is_lossy (cs_tid u) prog || list_match cc_matches (cstream_of u) obs
                         | None => false end) (st_csubs s)
   | CaseHist _ _ _ _ _ _ => true      (* no schedule to compare: judged by the oracle alone *)
   end.
@@ -104,7 +111,7 @@ Definition agrees (c : ccase) : bool :=
 Record hcall := mkH { h_call : fcall; h_inv : Z; h_resp : Z; h_out : fout }.
 
 Definition is_write_call (c : fcall) : bool :=
-  match c with FSubV _ | FSubC _ => false | _ => true end.
+  match c with FSubV _ | FSubC _ | FSubCL _ => false | _ => true end.
 
 (* Aborted from Set/Update and Unavailable from Delete: the call lost a race and must have had no
    effect.  (The generated checks never return these codes themselves.) *)
@@ -205,7 +212,7 @@ Fixpoint sub_ro (t : nat) (prog : list fcall) : option (bool * fro) :=
   match prog, t with
   | [], _ => None
   | FSubV ro :: _, O => Some (true, ro)
-  | FSubC ro :: _, O => Some (false, ro)
+  | FSubC ro :: _, O | FSubCL ro :: _, O => Some (false, ro)
   | _ :: _, O => None
   | _ :: r, S t' => sub_ro t' r
   end.
